@@ -161,7 +161,7 @@ def ClosestNodes.dhtSizeEstimate (c : ClosestNodes) : Float :=
   let ds := (c.nodes.take Constants.K).map (ClosestNodes.distance128 c.target)
   let acc := ds.foldl (fun (acc : Float × Nat) d =>
     (acc.1 + F64.ofNat (acc.2 + 1) * F64.ofNat d, acc.2 + 1)) ((0.0 : Float), 0)
-  if acc.2 == 0 then 0.0
+  if acc.2 == 0 || acc.1 == 0.0 then 0.0
   else F64.ofNat (acc.2 * (acc.2 + 1) * (2 * acc.2 + 1) / 6) * F64.two128 / acc.1
 
 /-- `take_until_secure(previous_dht_size_estimate, average_subnets)` with a table's statistics -/
